@@ -499,6 +499,13 @@ impl<'ast> LoweringContext<'ast> {
             if !attrs.disable {
                 for (name, ty, docs, attrs) in ast_out_struct.fields.iter() {
                     let name = self.lower_ident(name, "out-struct field name");
+                    if !ty.is_ffi_safe() {
+                        let ffisafe = ty.ffi_safe_version();
+                        self.errors.push(LoweringError::Other(format!(
+                            "Found FFI-unsafe type {ty} in struct field {}.{}, consider using {ffisafe}",
+                            ast_out_struct.name, name.as_ref().map(|n| n.as_str()).unwrap_or("?"),
+                        )));
+                    }
                     let ty = self.lower_out_type(
                         ty,
                         &mut &ast_out_struct.lifetimes,
